@@ -867,10 +867,12 @@ func (pm *ProtocolManager) respBlocks(from, to uint32, p *peer, hasChangeLog boo
 	height := from
 	for i := uint32(0); i < count; i++ {
 		blocks := make(types.Blocks, 0, eachSize)
+		missing := false
 		for j := 0; j < eachSize; j++ {
 			b := pm.chain.GetBlockByHeight(height)
 			if b == nil {
 				log.Warnf("Can't get a block of height %d", height)
+				missing = true
 				break
 			}
 			if !hasChangeLog {
@@ -884,6 +886,10 @@ func (pm *ProtocolManager) respBlocks(from, to uint32, p *peer, hasChangeLog boo
 		}
 		if p != nil && len(blocks) != 0 {
 			p.SendBlocks(blocks)
+		}
+		// height does not advance past a missing block: every later round would look up the same height
+		if missing {
+			return
 		}
 	}
 }
